@@ -47,7 +47,10 @@ type faultCase struct {
 	Shared bool `json:"shared"` // another id already holds Data's content
 	// Dangling: another id's index entry names Data's output, but the output file is gone - the state Trim leaves
 	// behind when the output file is stale while the index entry was refreshed by plain Get calls (not damage).
-	Dangling  bool     `json:"dangling,omitempty"`
+	Dangling bool `json:"dangling,omitempty"`
+	// Leftover: an earlier Put of Data's content under another id failed in its second pass, so the cache itself left
+	// the output file truncated to zero bytes (not damage: the state a failing source produces).
+	Leftover  bool     `json:"leftover,omitempty"`
 	Damage    string   `json:"damage"`    // pre-damage of the target output file: "", shorter, longer, flip, empty
 	Unrelated int      `json:"unrelated"` // unrelated entries present (1-3)
 	Src       srcFault `json:"src"`
@@ -172,6 +175,10 @@ func setup(c faultCase) (string, *vt.Fail) {
 		rc.PutBytes(cachekit.ID(danglingID), cachekit.Content(c.Data))
 		os.Remove(cachekit.DataPath(d, cachekit.Sum(cachekit.Content(c.Data))))
 	}
+	if c.Leftover && !c.Shared && !c.Dangling && c.Damage == "" && c.Prev != c.Data && len(cachekit.Content(c.Data)) > 1 {
+		data := cachekit.Content(c.Data)
+		rc.Put(cachekit.ID(danglingID), &flaky{data: data, f: srcFault{Mode: "err", Pass: 2, At: len(data) / 2}})
+	}
 	if c.Damage != "" {
 		p := cachekit.DataPath(d, cachekit.Sum(cachekit.Content(c.Data)))
 		b, err := os.ReadFile(p)
@@ -254,8 +261,8 @@ func describe(c faultCase, ops []fos.Op, putErr error, crashed bool) string {
 	for _, o := range ops {
 		tr = append(tr, o.Desc)
 	}
-	return fmt.Sprintf("scenario{prev=%d data=%d(%d bytes) shared=%v dangling=%v damage=%q} source=%+v fault{op %d=%s kind=%s cut=%d} -> Put err=%v crashed=%v; trace=%v",
-		c.Prev, c.Data, len(cachekit.Content(c.Data)), c.Shared, c.Dangling, c.Damage, c.Src, c.K, op, fos.Kind(c.Kind), c.Cut, putErr, crashed, tr)
+	return fmt.Sprintf("scenario{prev=%d data=%d(%d bytes) shared=%v dangling=%v leftover=%v damage=%q} source=%+v fault{op %d=%s kind=%s cut=%d} -> Put err=%v crashed=%v; trace=%v",
+		c.Prev, c.Data, len(cachekit.Content(c.Data)), c.Shared, c.Dangling, c.Leftover, c.Damage, c.Src, c.K, op, fos.Kind(c.Kind), c.Cut, putErr, crashed, tr)
 }
 
 func verify(d string, c faultCase, ops []fos.Op, putErr error, crashed bool) *vt.Fail {
@@ -343,7 +350,8 @@ var scenarios = []faultCase{
 	{Prev: -1, Data: 5, Shared: true}, {Prev: 2, Data: 5, Shared: true}, // content shared with another id
 	{Prev: 5, Data: 5, Damage: "shorter"}, {Prev: 5, Data: 5, Damage: "longer"}, {Prev: 5, Data: 5, Damage: "flip"}, {Prev: 5, Data: 5, Damage: "empty"},
 	{Prev: -1, Data: 5, Damage: "flip"}, {Prev: -1, Data: 5, Damage: "longer", Shared: true},
-	{Prev: -1, Data: 0, Damage: "flip"},                                     // zero-size output damaged to non-empty
+	{Prev: -1, Data: 0, Damage: "flip"},                                                                         // zero-size output damaged to non-empty
+	{Prev: 0, Data: 5, Leftover: true}, {Prev: 2, Data: 5, Leftover: true}, {Prev: -1, Data: 2, Leftover: true}, // an earlier failed Put left the output truncated
 	{Prev: -1, Data: 5, Dangling: true}, {Prev: 2, Data: 5, Dangling: true}, // another id's index entry names the output, the output file was trimmed
 	// every file-operation fault under a misbehaving source (second pass differs, fails or ends early)
 	{Prev: -1, Data: 5, Dangling: true, Src: srcFault{Mode: "change", Pass: 2, At: 0}}, {Prev: -1, Data: 5, Dangling: true, Src: srcFault{Mode: "change", Pass: 2, At: 4096}},
@@ -363,7 +371,12 @@ func cutsFor(kind fos.Kind, n int) []int {
 	if kind != fos.ShortWriteThenFail && kind != fos.CrashAfterShortWrite {
 		return []int{0}
 	}
-	return []int{0, 1, n / 2, n - 1}
+	cuts := []int{0, 1, n / 2, n - 1}
+	if n >= 160 && n <= 200 {
+		// an index entry: also cut at the boundaries of its fields (action id | output id | size | time)
+		cuts = append(cuts, 68, 132, 133, 153)
+	}
+	return cuts
 }
 
 func firstWrite(ops []fos.Op) int {
@@ -514,6 +527,7 @@ func genFault(t *rapid.T) faultCase {
 	}
 	c.Shared = rapid.IntRange(0, 3).Draw(t, "shared") == 0
 	c.Dangling = rapid.IntRange(0, 3).Draw(t, "dangling") == 1
+	c.Leftover = rapid.IntRange(0, 3).Draw(t, "leftover") == 2
 	if rapid.IntRange(0, 3).Draw(t, "damaged") == 0 {
 		c.Damage = rapid.SampledFrom([]string{"shorter", "longer", "flip", "empty"}).Draw(t, "damage")
 	}
